@@ -121,6 +121,10 @@ def conclude_args(res, tier, seed):
     sigs = [s for s in res.sets.get("edit_signatures", ()) if s != "-"]
     kw = {"need": {"rows_declined": 30, "rows_solved": 30, "carbon_excess_inputs": 10},
           "min_cases": 20, "extra": {"distinct_edit_signatures": len(sigs)}}
-    if len(sigs) < 2:
+    if any(k.startswith("hook_missing:run_pipeline") for k in res.counters):
+        # the private per-batch method could not be wrapped (renamed / split): edit signatures are a coverage
+        # metric only - every verdict of this check comes from the returned rows - so the requirement is waived
+        kw["extra"]["edit_signatures_waived"] = "private per-batch hook not found"
+    elif len(sigs) < 2:
         res.incon("fewer than 2 distinct non-empty edit signatures among declined rows (%d)" % len(sigs))
     return kw
